@@ -62,6 +62,20 @@ def legal_pairs():
                 fs = ws - need_bits
                 if 0 <= fs <= ws:
                     out.append(("lossy", fx(ss, ws, fs), it(ds, wi)))
+    # --- pointer-sized integers (found unexecuted by bin/vcov-inst): From<Fixed<U0>> for usize / isize exists for the 8- and 16-bit
+    # sources only (fixed_to_int! ... -> (usize, isize)), LossyFrom<Fixed> for usize / isize when the integer bits fit 16 / 15 bits
+    # (the impl bounds assume a pointer width of at least 16).  Logged under the names u64.0 / i64.0 (values are preserved).
+    PU, PI = ("usize", "u64.0"), ("isize", "i64.0")
+    out += [("from", fx(False, 8, 0), PU), ("from", fx(False, 8, 0), PI), ("from", fx(True, 8, 0), PI),
+            ("from", fx(False, 16, 0), PU), ("from", fx(True, 16, 0), PI)]
+    for ws in W:
+        for (ss, dst, bits) in ((False, PU, 16), (True, PI, 16), (False, PI, 15)):
+            fs = ws - bits
+            if 0 <= fs <= ws:
+                out.append(("lossy", fx(ss, ws, fs), dst))
+            if ws <= bits:
+                out.append(("lossy", fx(ss, ws, 0), dst))
+                out.append(("lossy", fx(ss, ws, ws), dst))
     # de-duplicate, keep order
     seen, res = set(), []
     for e in out:
